@@ -86,4 +86,6 @@ Definition case := (store * N * list N * list (list (op * obs)))%type.
 Definition check_case (c : case) : bool :=
   let '(st, cbm, gs, hs) := c in
   let srcs := map (fun g => (g, view_of g st)) gs in
+  (* the initial store satisfies the hypothesis of the frame theorems for every source *)
+  forallb (fun g => goodb g st) gs &&
   forallb (check_hist cbm srcs [] st) hs.
